@@ -15,7 +15,7 @@
    One state = one case (configuration x request); `Family` selects the family a run enumerates. *)
 EXTENDS Integers, Sequences, FiniteSets, TLC, Json
 
-CONSTANTS Family,    \* "hdr" | "path" | "redir" | "direct" | "tmo" | "pfc"
+CONSTANTS Family,    \* "hdr" | "hdrl" | "path" | "redir" | "direct" | "tmo" | "pfc"
           Defects,   \* {} = intended design
           Big        \* TRUE: thorough universes
 
@@ -26,7 +26,11 @@ Max(a, b) == IF a > b THEN a ELSE b
 
 (* ------------------------------------------------------------------ header mutations *)
 (* a level (route / virtual host / router configuration) = additions in order, then removals *)
-Op(k, v, a) == [k |-> k, v |-> v, a |-> a]
+(* one entry of a ..._headers_to_add list: a = "t" / "f" = `append` stated true / false, "d" = `append` omitted, which
+   means append (the default holds per entry, whatever the entries before it say) *)
+Op(k, v, a) == [k |-> k, v |-> v, a |-> IF a THEN "t" ELSE "f"]
+OpD(k, v)   == [k |-> k, v |-> v, a |-> "d"]
+Appends(op) == op.a # "f"
 NoLevel == [add |-> <<>>, rm |-> <<>>]
 
 (* values of additions (headerformatter.go getHeaderFormatter): a literal, or %name% naming a registered variable that is
@@ -75,13 +79,21 @@ Menu(t) ==
 Join(old, new) == IF "AppendNoSeparator" \in Defects THEN old \o new ELSE old \o "," \o new
 
 (* Impl: header_parser.go evaluateHeaders *)
-ApplyAdd(h, op, env) ==
+(* utility.go getHeaderPair turns the configured list into (name, formatter) pairs once; the formatter remembers whether
+   to append.  The default belongs to the entry: a variable that survives the loop would hand an earlier "false" on *)
+RECURSIVE ParsedAppend(_, _)
+ParsedAppend(ops, carry) ==
+  IF ops = <<>> THEN <<>>
+  ELSE LET e == IF Head(ops).a = "d" THEN (IF "AppendDefaultLeaks" \in Defects THEN carry ELSE TRUE) ELSE Head(ops).a = "t"
+       IN <<e>> \o ParsedAppend(Tail(ops), e)
+ApplyAdd(h, op, app, env) ==
   LET old == h[op.k]
       new == ImplFormat(op.v, env)
-      val == IF old # Absent /\ old # "" /\ op.a THEN Join(old, new) ELSE new
+      val == IF old # Absent /\ old # "" /\ app THEN Join(old, new) ELSE new
   IN [h EXCEPT ![op.k] = val]
-RECURSIVE ApplyAdds(_, _, _)
-ApplyAdds(h, ops, env) == IF ops = <<>> THEN h ELSE ApplyAdds(ApplyAdd(h, Head(ops), env), Tail(ops), env)
+RECURSIVE ApplyAddsP(_, _, _, _)
+ApplyAddsP(h, ops, apps, env) == IF ops = <<>> THEN h ELSE ApplyAddsP(ApplyAdd(h, Head(ops), Head(apps), env), Tail(ops), Tail(apps), env)
+ApplyAdds(h, ops, env) == ApplyAddsP(h, ops, ParsedAppend(ops, TRUE), env)
 RECURSIVE ApplyRms(_, _)
 ApplyRms(h, ks) == IF ks = <<>> THEN h ELSE ApplyRms([h EXCEPT ![Head(ks)] = Absent], Tail(ks))
 Evaluate(h, lv, env) == IF "RemoveBeforeAdd" \in Defects THEN ApplyAdds(ApplyRms(h, lv.rm), lv.add, env)
@@ -97,7 +109,7 @@ ImplHdr(lv, h, env) ==
 LevelEvents(lv, k, env) ==
   LET adds == SelectSeq(lv.add, LAMBDA op : op.k = k)
       rms  == SelectSeq(lv.rm, LAMBDA x : x = k)
-  IN [i \in 1..Len(adds) |-> [t |-> IF adds[i].a THEN "app" ELSE "set", v |-> SemFormat(adds[i].v, env)]]
+  IN [i \in 1..Len(adds) |-> [t |-> IF Appends(adds[i]) THEN "app" ELSE "set", v |-> SemFormat(adds[i].v, env)]]
      \o [i \in 1..Len(rms) |-> [t |-> "rm", v |-> Absent]]
 Events(lv, k, env) == LevelEvents(lv.route, k, env) \o LevelEvents(lv.vhost, k, env) \o LevelEvents(lv.router, k, env)
 RECURSIVE JoinAll(_, _)
@@ -110,6 +122,18 @@ SemHdrKey(lv, h, k, env) ==
       base == IF cut = 0 THEN h[k] ELSE evs[cut].v
   IN JoinAll(base, SubSeq(evs, cut + 1, Len(evs)))
 SemHdr(lv, h, env) == [k \in Names |-> SemHdrKey(lv, h, k, env)]
+
+(* LIST SHAPES (family "hdrl"): one level carries a list of 2-3 entries over the two names whose `append` is stated true,
+   stated false or omitted, in every order (the same name twice included), optionally with a removal of x-a at the same
+   level; the other two levels carry nothing or one entry with `append` omitted *)
+EntryKinds == [k : Names, a : {"t", "f", "d"}]
+ListOf(t, ks) == [i \in DOMAIN ks |-> [k |-> ks[i].k, v |-> t \o ToString(i), a |-> ks[i].a]]
+ListLevels(t) == { [add |-> ListOf(t, ks), rm |-> rm] : ks \in [1..2 -> EntryKinds] \cup [1..3 -> EntryKinds], rm \in {<<>>, <<"x-a">>} }
+SmallMenu(t)  == { NoLevel, [add |-> <<OpD("x-a", t)>>, rm |-> <<>>] }
+HdrListCases ==
+  [lv : [route : ListLevels("r"), vhost : SmallMenu("v"), router : SmallMenu("g")], hin : [Names -> {Absent, "c"}]]
+  \cup [lv : [route : SmallMenu("r"), vhost : ListLevels("v"), router : SmallMenu("g")], hin : [Names -> {Absent, "c"}]]
+  \cup [lv : [route : SmallMenu("r"), vhost : SmallMenu("v"), router : ListLevels("g")], hin : [Names -> {Absent, "c"}]]
 
 HdrCases == [lv : [route : Menu("r"), vhost : Menu("v"), router : Menu("g")], hin : [Names -> {Absent, "c"}]]
 
@@ -264,23 +288,27 @@ ImplPfc(c) == [route |-> IF "PfcRouteFallsBackToVhost" \in Defects /\ c.route = 
 
 (* ------------------------------------------------------------------ one state per case *)
 VARIABLE c
-Cases == CASE Family = "hdr" -> HdrCases [] Family = "path" -> PathCases [] Family = "redir" -> RedirCases
+Cases == CASE Family = "hdr" -> HdrCases [] Family = "hdrl" -> HdrListCases [] Family = "path" -> PathCases [] Family = "redir" -> RedirCases
            [] Family = "direct" -> DirectCases [] Family = "tmo" -> TmoCases [] Family = "pfc" -> PfcCases
 Init == c \in Cases
 Next == UNCHANGED c
 Spec == Init /\ [][Next]_c
 
 (* ---- properties: the implementation-shaped evaluation means what the property states ---- *)
-HdrImplIsSem   == Family = "hdr" => \A env \in Envs : ImplHdr(c.lv, c.hin, env) = SemHdr(c.lv, c.hin, env)
+HdrImplIsSem   == Family \in {"hdr", "hdrl"} => \A env \in Envs : ImplHdr(c.lv, c.hin, env) = SemHdr(c.lv, c.hin, env)
 (* the statement's own example: all three levels append to a header the client sent *)
 HdrLevelOrder  == (Family = "hdr" /\ c.hin["x-a"] = "c"
-                   /\ \A L \in {"route", "vhost", "router"} : Len(c.lv[L].add) = 1 /\ c.lv[L].add[1].a /\ c.lv[L].add[1].k = "x-a" /\ c.lv[L].rm = <<>>
+                   /\ \A L \in {"route", "vhost", "router"} : Len(c.lv[L].add) = 1 /\ Appends(c.lv[L].add[1]) /\ c.lv[L].add[1].k = "x-a" /\ c.lv[L].rm = <<>>
                         /\ ~VarShape(c.lv[L].add[1].v))
                   => ImplHdr(c.lv, c.hin, NoEnv)["x-a"] = "c,r,v,g"
 (* the statement's "applied exactly" for variable values: a resolvable reference contributes the request's own value *)
 HdrVarResolved == (Family = "hdr" /\ c.lv.route = [add |-> <<Op("x-a", VReq, TRUE)>>, rm |-> <<>>] /\ c.lv.vhost = NoLevel /\ c.lv.router = NoLevel)
                   => /\ ImplHdr(c.lv, c.hin, [src |-> "s", rsrc |-> Absent])["x-a"] = (IF c.hin["x-a"] = Absent THEN "s" ELSE "c,s")
                      /\ ImplHdr(c.lv, c.hin, NoEnv)["x-a"] = (IF c.hin["x-a"] = Absent THEN "" ELSE "c,")
+(* the coordinator's example: an entry that omits `append` appends, whatever stands before it in the list *)
+OmittedAppends == (Family = "hdrl" /\ c.hin["x-a"] = "c" /\ c.lv.vhost = NoLevel /\ c.lv.router = NoLevel /\ c.lv.route.rm = <<>>
+                   /\ Len(c.lv.route.add) = 2 /\ c.lv.route.add[1] = [k |-> "x-b", v |-> "r1", a |-> "f"] /\ c.lv.route.add[2].k = "x-a" /\ c.lv.route.add[2].a = "d")
+                  => ImplHdr(c.lv, c.hin, NoEnv)["x-a"] = "c,r2"
 PathImplIsSem  == Family = "path" => ImplPath(c) = SemPath(c)
 PrefixWins     == (Family = "path" /\ c.pr # <<>> /\ c.rule = "prefix") => ImplPath(c) = c.pr \o Rest(PrefixA, c.path)
 PathRuleSwapsWholePath == (Family = "path" /\ c.pr # <<>> /\ c.rule = "path") => ImplPath(c) = c.pr
